@@ -64,6 +64,9 @@ func init() {
 			return nil
 		},
 		symPkg + "CheckAlloc": extNop,
+		symPkg + "PickU64": func(fr *frame, a []value) value {
+			return fr.i.ps.concValue(a[0], "verifsym.PickU64")
+		},
 		symPkg + "Concrete": func(fr *frame, a []value) value { return !isSym(a[0]) },
 		symPkg + "Engine":   func(fr *frame, a []value) value { return true },
 		symPkg + "Tier":     func(fr *frame, a []value) value { return fr.i.ps.cfg.Tier },
